@@ -29,6 +29,7 @@ PROP = "C10"
 LEAN_MODULES = ["MiciVerif.Props.C10"]
 LEAN_EXTRA = [
     "MiciVerif.Model.Matrices",
+    "MiciVerif.Model.MatricesEval",
     "MiciVerif.Lemmas.MatricesBlock",
     "MiciVerif.Lemmas.MatricesTri",
     "MiciVerif.Lemmas.MatricesLowRank",
@@ -511,8 +512,14 @@ class Gen:
             if t == "ES":
                 return self.eig(n, pd=1)
             if t == "SA":
-                a = rand_rect(rng, n, n, 4)
-                return ["SA", L((a + a.T) / 2), float(self.choice([0.5, 1.0, 2.0]))]
+                for _ in range(50):
+                    a = rand_rect(rng, n, n, 4)
+                    a = (a + a.T) / 2
+                    if np.min(np.abs(np.linalg.eigvalsh(a))) > 0.1:  # softabs(0) is 0/0 in the code
+                        break
+                else:
+                    a = np.eye(n)
+                return ["SA", L(a), float(self.choice([0.5, 1.0, 2.0]))]
             if t == "PP":
                 m2 = n + int(rng.integers(1, 3))
                 inner = None if rng.random() < 0.4 else self.gen("pd", m2, 1)
@@ -610,7 +617,7 @@ class Gen:
         rng = self.rng
         if kind == "any":
             if m == n and rng.random() < 0.5:
-                return self._gen("inv", n, depth, None)
+                return self.gen("inv", n, depth)
             if depth <= 1 or rng.random() < 0.3:
                 if m == n:
                     return self.leaf("inv", n)
@@ -624,6 +631,10 @@ class Gen:
                 return ["BC", [self.gen("any", n, depth - 1, a), self.gen("any", n, depth - 1, b)]]
             if t == "MM":
                 k = int(rng.integers(1, self.max_n + 1))
+                if not self.exact and rng.random() < 0.3:
+                    k2 = int(rng.integers(1, self.max_n + 1))
+                    return ["PR", [self.gen("any", k, depth - 1, m), self.gen("any", k2, max(1, depth - 2), k),
+                                   self.gen("any", n, max(1, depth - 2), k2)], "plain"]
                 return ["MM", self.gen("any", k, depth - 1, m), self.gen("any", n, depth - 1, k)]
             if t == "T":
                 return ["T", self.gen("any", m, depth - 1, n)]
@@ -641,7 +652,7 @@ class Gen:
         if t == "leaf":
             return self.leaf(kind, n)
         if t in ("pd", "sym"):
-            return self._gen(t, n, depth, None)
+            return self.gen(t, n, depth)
         if t == "BD":
             if n < 2:
                 return self.leaf(kind, n)
@@ -663,6 +674,9 @@ class Gen:
             sgn, r = self.sq_scalar(kind == "pd")
             return self.smul(sgn, r, self.gen(kind, n, depth - 1))
         if t == "MM":
+            if not self.exact and rng.random() < 0.4:
+                k = int(rng.integers(2, 4))
+                return ["PR", [self.gen("inv", n, max(1, depth - 1 - (i > 0))) for i in range(k)], "inv"]
             return ["MM", self.gen("inv", n, depth - 1), self.gen("inv", n, depth - 1)]
         if t == "LR":
             k = int(rng.integers(1, n + 1))
@@ -671,10 +685,16 @@ class Gen:
             base = self.gen(kind, n, depth - 1)
             inner = None if rng.random() < 0.3 else self.gen(kind, k, max(1, depth - 2))
             scale = 4 if sign == 1 else 8
-            if depth >= 3 and rng.random() < 0.3 and k >= 1:
-                u = self.gen("any", k, depth - 2, n)
+            for _ in range(40):
+                if depth >= 3 and rng.random() < 0.3 and k >= 1:
+                    u = self.gen("any", k, depth - 2, n)
+                else:
+                    u = ["RE", L(rand_rect(rng, n, k, scale))]
+                ud = dense(u)
+                if lk != "pd" or np.linalg.cond(ud.T @ ud) < 1e3:
+                    break  # positive-definite updates: full column rank (the sqrt needs chol(UᵀU))
             else:
-                u = ["RE", L(rand_rect(rng, n, k, scale))]
+                u = ["RE", L(np.eye(n, k) / 4)]
             v = None
             if lk == "sq":
                 v = ["RE", L(rand_rect(rng, k, n, scale))] if rng.random() < 0.7 else ["T", u]
@@ -703,6 +723,22 @@ def close_arr(a, b, scale=None, rtol=RTOL):
         return False
     s = max(1.0, float(np.max(np.abs(b))) if b.size else 1.0) if scale is None else scale
     return bool(np.max(np.abs(a - b), initial=0.0) <= rtol * s)
+
+
+def supports_logdet(obj):
+    """A product / block / low-rank object only has a log_abs_det if all its parts have one.  Square-shaped
+    objects of a non-square CLASS (DenseRectangularMatrix, BlockRowMatrix, BlockColumnMatrix, MatrixProduct)
+    have none (adjudicated as misuse of those classes: counted, not flagged)."""
+    M = mm()
+    if not isinstance(obj, M.SquareMatrix):
+        return False
+    if isinstance(obj, M.MatrixProduct):
+        return all(supports_logdet(x) for x in obj.matrices)
+    if isinstance(obj, M.SquareBlockDiagonalMatrix):
+        return all(supports_logdet(x) for x in obj.blocks)
+    if isinstance(obj, M.SquareLowRankUpdateMatrix):
+        return supports_logdet(obj.square_matrix) and supports_logdet(obj.inner_square_matrix)
+    return True
 
 
 def observe(obj, d, bl, br, deep=True):
@@ -734,7 +770,8 @@ def observe(obj, d, bl, br, deep=True):
     rec("T@", lambda: obj.T @ br.T, d.T @ br.T)
     if m == n:
         rec("diagonal", lambda: np.array(obj.diagonal), np.diag(d))
-    if isinstance(obj, M.SquareMatrix):
+    has_ld = supports_logdet(obj)
+    if has_ld:
         sgn_, lad = np.linalg.slogdet(d)
         rec("log_abs_det", lambda: float(obj.log_abs_det), lad, max(1.0, abs(lad)))
     if isinstance(obj, M.InvertibleMatrix):
@@ -746,8 +783,9 @@ def observe(obj, d, bl, br, deep=True):
             rec("inv.T.array", lambda: np.array(obj.inv.T.array), di.T)
             rec("T.inv.array", lambda: np.array(obj.T.inv.array), di.T)
             rec("inv.inv.array", lambda: np.array(obj.inv.inv.array), d)
-            rec("inv.log_abs_det", lambda: float(obj.inv.log_abs_det), -np.linalg.slogdet(d)[1],
-                max(1.0, abs(np.linalg.slogdet(d)[1])))
+            if has_ld:
+                rec("inv.log_abs_det", lambda: float(obj.inv.log_abs_det), -np.linalg.slogdet(d)[1],
+                    max(1.0, abs(np.linalg.slogdet(d)[1])))
             rec("inv.diagonal", lambda: np.array(obj.inv.diagonal), np.diag(di))
     if isinstance(obj, M.SymmetricMatrix):
         rec("T is self", lambda: obj.T is obj, True)
@@ -774,7 +812,7 @@ def observe(obj, d, bl, br, deep=True):
         if isinstance(obj, M.InvertibleMatrix):
             rec("(-x).inv.array", lambda: np.array((-obj).inv.array), -np.linalg.inv(d))
             rec("(x*0.5).inv@", lambda: (obj * 0.5).inv @ bl, 2 * np.linalg.inv(d) @ bl)
-        if isinstance(obj, M.SquareMatrix):
+        if has_ld:
             lad = np.linalg.slogdet(d)[1]
             rec("(-2x).log_abs_det", lambda: float((-2.0 * obj).log_abs_det), lad + n * math.log(2.0),
                 max(1.0, abs(lad)))
@@ -797,7 +835,8 @@ def judge(val, ref, scale):
     if close_arr(v, r, scale):
         return None
     err = float(np.max(np.abs(v - r))) if np.all(np.isfinite(v)) else float("nan")
-    return f"max abs error {err:.3e} (scale {scale or max(1.0, float(np.max(np.abs(r), initial=0)))}:.3g)"
+    sc = scale or max(1.0, float(np.max(np.abs(r), initial=0)))
+    return f"max abs error {err:.3e} (scale {sc:.3g})"
 
 
 def family(sp):
@@ -839,6 +878,18 @@ def check_tree(ctx, sp, bl, br, model_line, deep=True):
         return 1
     d = dense(sp)
     obs = observe(obj, d, bl, br, deep)
+    if sp[0] == "LR":  # the capacitance matrix itself, with the sign: K^-1 + sign V S^-1 U
+        ud = dense(sp[3])
+        vd = ud.T if sp[4] is None else dense(sp[4])
+        kd = np.eye(ud.shape[1]) if sp[6] is None else dense(sp[6])
+        cref = np.linalg.inv(kd) + sp[2] * (vd @ np.linalg.inv(dense(sp[5])) @ ud)
+        try:
+            with warnings.catch_warnings():
+                warnings.simplefilter("ignore")
+                cval = np.array(obj.capacitance_matrix.array)
+        except Exception as e:  # noqa: BLE001
+            cval = e
+        obs.append(("capacitance_matrix.array", cval, cref, None))
     bad = {}
     for name, val, ref, scale in obs:
         j = judge(val, ref, scale)
@@ -931,6 +982,18 @@ def implicit_and_edge_cases(ctx, rng):
         expect(f"{tag}.T @ v", lambda: mk().T @ v, c * v)
         expect(f"(2*{tag}) @ v", lambda: (2 * mk()) @ v, 2 * c * v)
         expect(f"(-{tag}).inv @ v", lambda: (-mk()).inv @ v, -v / c)
+    for c in (2.5, -0.5):
+        for attr in ("diagonal", "eigval"):
+            try:
+                val = getattr(M.ScaledIdentityMatrix(c), attr) * v
+            except Exception as e:  # noqa: BLE001
+                val = e
+            ctx.count("edge_case")
+            j = judge(val, c * v, None)
+            if j is not None:
+                ctx.violation("ScaledIdentityMatrix.diagonal implicit size",
+                              f"ScaledIdentityMatrix({c}).{attr} * v with implicit size: {j}",
+                              {"edge": f"ScaledIdentityMatrix({c}).{attr} implicit"})
     expect("IdentityMatrix().sqrt @ v", lambda: M.IdentityMatrix().sqrt @ v, v)
     expect("IdentityMatrix().diagonal * v", lambda: M.IdentityMatrix().diagonal * v, v)
     expect("IdentityMatrix().eigval * v", lambda: M.IdentityMatrix().eigval * v, v)
@@ -956,38 +1019,80 @@ def implicit_and_edge_cases(ctx, rng):
             ctx.violation(f"constructor {name}", f"{name} raised {type(e).__name__}: {e}", {"edge": name})
 
 
-# Constructions that fail on the clean tree and look like genuine defects (reported to the lead);
-# they are probed and counted on every run but are not violations until adjudicated.
-def suspected_defects(ctx, rng):
+def fixed_findings(ctx, rng):  # noqa: ARG001
+    """Deterministic inputs of findings of this property (fixed ones must stay fixed; the known one is
+    re-detected on every run and reported under its registered signature)."""
     M = mm()
-    found = []
-
-    def probe(name, fn):
-        try:
-            with warnings.catch_warnings():
-                warnings.simplefilter("ignore")
-                fn()
-        except Exception as e:  # noqa: BLE001
-            found.append(f"{name}: {type(e).__name__}: {e}")
-
     U = np.array([[1.0, 0.5], [0.25, 1.0], [0.5, 0.5]])
     P = M.PositiveDefiniteBlockDiagonalMatrix(
         [M.PositiveDiagonalMatrix(np.array([2.0, 3.0])), M.PositiveScaledIdentityMatrix(2.0, 1)])
-    probe("-(PositiveDefiniteLowRankUpdateMatrix over PositiveDefiniteBlockDiagonalMatrix)",
-          lambda: (-M.PositiveDefiniteLowRankUpdateMatrix(M.DenseRectangularMatrix(U), P)).array)
-    probe("ScaledIdentityMatrix(2.).diagonal (implicit size)", lambda: M.ScaledIdentityMatrix(2.0).diagonal)
-    probe("(DenseRectangularMatrix(2x2) @ DenseSquareMatrix).log_abs_det",
-          lambda: (M.DenseRectangularMatrix(np.eye(2)) @ M.DenseSquareMatrix(2 * np.eye(2))).log_abs_det)
-    ctx.extra["suspected_defects_on_this_tree"] = found
-    ctx.count("suspected_defect_probe_failing", len(found))
+    dP = np.diag([2.0, 3.0, 2.0])
+    sig = "negative multiple of PositiveDefiniteBlockDiagonalMatrix loses symmetric class"
+    ctx.count("finding_probe")
+    try:
+        with warnings.catch_warnings():
+            warnings.simplefilter("ignore")
+            negP = -P
+            ok = isinstance(negP, M.SymmetricMatrix) and negP.T is negP and close_arr(negP.array, -dP)
+            lr = M.PositiveDefiniteLowRankUpdateMatrix(M.DenseRectangularMatrix(U), P)
+            d = dP + U @ U.T
+            for c in (-1.0, -2.0):
+                x = lr * c
+                ok = ok and isinstance(x, M.SymmetricMatrix) and close_arr(x.array, c * d)
+                ok = ok and close_arr(x.inv.array, np.linalg.inv(c * d))
+        if not ok:
+            ctx.violation(sig, "negative multiple of a PD block-diagonal / PD low-rank over it is wrong or not symmetric-class",
+                          {"finding": "neg-pd-blockdiag"})
+    except Exception as e:  # noqa: BLE001
+        ctx.violation(sig, f"-(PD low-rank update over PD block-diagonal) raised {type(e).__name__}: {e}",
+                      {"finding": "neg-pd-blockdiag"})
+    # KNOWN finding (registered in known_findings.json): rank-deficient factor, matrix still PD
+    ctx.count("finding_probe")
+    for sign in (1, -1):
+        F = np.array([[0.5, 0.25], [-0.5, -0.25]])
+        try:
+            with warnings.catch_warnings():
+                warnings.simplefilter("ignore")
+                m = M.PositiveDefiniteLowRankUpdateMatrix(
+                    F, M.PositiveDiagonalMatrix(np.array([3.75, 4.75])),
+                    M.DensePositiveDefiniteMatrix(np.diag([1.0, 0.5625])), sign=sign)
+                d = np.diag([3.75, 4.75]) + sign * F @ np.diag([1.0, 0.5625]) @ F.T
+                s_ = np.array(m.sqrt.array)
+                good = close_arr(s_ @ s_.T, d)
+        except Exception as e:  # noqa: BLE001
+            good = False
+            why = f"raised {type(e).__name__}: {e}"
+        else:
+            why = "sqrt @ sqrt.T differs from the matrix"
+        if not good:
+            ctx.violation("PositiveDefiniteLowRankUpdateMatrix.sqrt rank-deficient factor",
+                          f"sqrt of a positive-definite low-rank update (sign={sign}) with rank-deficient factor_matrix: {why}",
+                          {"finding": "lowrank-sqrt-rank-deficient", "sign": sign})
+            break
+    # counted only (adjudicated as misuse of the rectangular class)
+    try:
+        pr = M.DenseRectangularMatrix(np.eye(2)) @ M.DenseSquareMatrix(2 * np.eye(2))
+        if type(pr).__name__ != "SquareMatrixProduct" or not close_arr(pr.array, 2 * np.eye(2)):
+            ctx.violation("product class selection", f"square non-invertible @ invertible gave {type(pr).__name__}",
+                          {"finding": "product-class"})
+        try:
+            pr.log_abs_det  # noqa: B018
+        except AttributeError:
+            ctx.count("square_shaped_DenseRectangularMatrix_in_SquareMatrixProduct_has_no_log_abs_det")
+    except Exception as e:  # noqa: BLE001
+        ctx.violation("product class selection",
+                      f"DenseRectangularMatrix(2x2) @ DenseSquareMatrix raised {type(e).__name__}: {e}",
+                      {"finding": "product-class"})
 
 
 # ---------------------------------------------------------------------------------------
 
 
 def gen_root(g: Gen, rng):
-    kind = g.choice(list(KINDS), p=[0.3, 0.25, 0.3, 0.15])
+    kind = g.choice(list(KINDS), p=[0.25, 0.25, 0.25, 0.25])
     depth = int(rng.integers(1, g.max_depth + 1))
+    if depth < g.max_depth and rng.random() < 0.4:
+        depth += 1
     n = int(rng.integers(1, g.max_n + 1))
     if kind == "any":
         m = int(rng.integers(1, g.max_n + 1))
@@ -995,40 +1100,6 @@ def gen_root(g: Gen, rng):
     else:
         sp = g.gen(kind, n, depth)
     return sp
-
-
-def avoid_known_constructions(sp):
-    """True if the spec contains a construction listed in `suspected_defects` (negative multiple of a
-    PD low-rank update over a PD block-diagonal matrix)."""
-    def pd_bd_inside_lr(s, neg):
-        if s[0] in ("SM", "SC"):
-            c = s[1] if s[0] == "SC" else s[1]
-            return pd_bd_inside_lr(s[-1], neg or c < 0)
-        if s[0] == "LR" and s[1] == "pd":
-            for part in (s[5], s[6]):
-                if part is not None and _has_pd_bd(part):
-                    return True  # any later negation (also the harness' own (-x) observables)
-        for x in s[1:]:
-            if isinstance(x, list) and x and isinstance(x[0], str) and x[0].isupper():
-                if pd_bd_inside_lr(x, neg):
-                    return True
-            elif isinstance(x, list):
-                for y in x:
-                    if isinstance(y, list) and y and isinstance(y[0], str) and y[0].isupper() and pd_bd_inside_lr(y, neg):
-                        return True
-        return False
-
-    return pd_bd_inside_lr(sp, False)
-
-
-def _has_pd_bd(s):
-    if s[0] == "BD" and s[1] == "pd":
-        return True
-    if s[0] in ("T", "INV"):
-        return _has_pd_bd(s[1])
-    if s[0] in ("SM", "SC"):
-        return _has_pd_bd(s[-1])
-    return False
 
 
 def run(ctx: common.Ctx):
@@ -1043,19 +1114,35 @@ def run(ctx: common.Ctx):
         "parameters are dyadic rationals; every generated square node has condition number < 2e3 (root < 1e5)",
         "exact trees use scalars +-r^2 (r dyadic) and exactly orthogonal dyadic matrices so the model data are rational",
         "LAPACK triangular/LU solves are modelled as multiplication by a checked exact inverse",
+        "DenseRectangularMatrix is only generated with non-square shape (a square-shaped one inside a "
+        "SquareMatrixProduct has no log_abs_det: adjudicated as misuse, counted only)",
+        "factor matrices of positive-definite low-rank updates have full column rank (the rank-deficient "
+        "case is the registered known finding and is probed deterministically)",
     ]
     max_depth = ctx.n(4, 7)
     max_n = ctx.n(4, 5)
+    # ---- corpus (past disagreements / finding inputs), always first -------------------------
+    import json  # noqa: PLC0415
+
+    corpus = sorted((common.VERIF / "corpus" / "C10").glob("*.json"))
+    items = [json.loads(f.read_text()) for f in corpus]
+    if items:
+        lines = common.run_driver(
+            "C10", [f"all {lm(A(o['bl']))} {lm(A(o['br']))} {lean(o['spec'])}" for o in items], timeout=600)
+        for o, line in zip(items, lines, strict=True):
+            ctx.case({"corpus": o["name"]}, nontrivial=True)
+            ctx.count("corpus")
+            check_tree(ctx, o["spec"], A(o["bl"]), A(o["br"]), line, deep=True)
     # ---- exact trees: model + dense ---------------------------------------------------
     g = Gen(rng, True, max_depth, max_n)
     specs, reqs, bls, brs = [], [], [], []
-    n_exact = ctx.n(260, 2500)
+    n_exact = ctx.n(3000, 12000)
     tries = 0
     while len(specs) < n_exact and tries < 20 * n_exact:
         tries += 1
         sp = gen_root(g, rng)
         d = dense(sp)
-        if not cond_ok(d, COND_ROOT) or avoid_known_constructions(sp):
+        if not cond_ok(d, COND_ROOT):
             ctx.count("rejected_root")
             continue
         tok = lean(sp)
@@ -1080,7 +1167,7 @@ def run(ctx: common.Ctx):
         check_tree(ctx, sp, bl, br, line, deep=True)
     # ---- dense-only trees ---------------------------------------------------------------
     g2 = Gen(rng, False, max_depth, max_n)
-    n_dense = ctx.n(260, 3000)
+    n_dense = ctx.n(3000, 12000)
     done = 0
     tries = 0
     while done < n_dense and tries < 20 * n_dense:
@@ -1090,7 +1177,7 @@ def run(ctx: common.Ctx):
             d = dense(sp)
         except np.linalg.LinAlgError:
             continue
-        if not cond_ok(d, COND_ROOT) or avoid_known_constructions(sp):
+        if not cond_ok(d, COND_ROOT):
             ctx.count("rejected_root")
             continue
         bl = rand_b(rng, d.shape[1], 2)
@@ -1104,10 +1191,14 @@ def run(ctx: common.Ctx):
         check_tree(ctx, sp, bl, br, None, deep=True)
         done += 1
     implicit_and_edge_cases(ctx, rng)
-    suspected_defects(ctx, rng)
+    fixed_findings(ctx, rng)
 
 
 def replay(ctx, obj):
+    if "finding" in obj:
+        sub = common.Ctx(ctx.prop, ctx.tier, ctx.seed)
+        fixed_findings(sub, common.rng_for(sub))
+        return any(v["replay"].get("finding") == obj["finding"] for v in sub.violations)
     if "edge" in obj:
         sub = common.Ctx(ctx.prop, ctx.tier, ctx.seed)
         implicit_and_edge_cases(sub, common.rng_for(sub))
@@ -1123,25 +1214,39 @@ def replay(ctx, obj):
 
 LEVEL_TEXT = (
     "Lean 4 proof, by structural induction over an expression type MExpr with one constructor per mici matrix class "
-    "(unbounded depth, all sizes, any field): for every well-formed expression (constructor preconditions and the "
-    "defining equations of all checked factors) leftMul/rightMul agree with the dense meaning (leftMul_agrees, "
-    "rightMul_agrees), transpose (transpose_agrees, transpose_wf), inverse is a two-sided inverse and stays well-formed "
-    "(inv_agrees, inv_wf, inv_inv_agrees), non-zero scalar multiples (smul_agrees, smul_wf), diagonal (diagonal_agrees), "
-    "the determinant composed the way log_abs_det is composed agrees up to sign (sdet_agrees, abs version for ordered "
-    "fields); low-rank updates WITH SIGN: Woodbury with capacitance C = K^-1 + sign V S^-1 U (lowrank_woodbury_signed), "
-    "determinant lemma (lowrank_det_signed), Ambikasaran square root (lowrank_sqrt_signed, ambikasaran_identity); "
-    "square-root and eigen-data theorems per class. Tied to the code by random expression trees compared with the "
-    "model's exact rational denote (Gauss-Jordan inverses decided correct in the driver) and with dense NumPy."
+    "(identity, (positive) scaled identity, (positive) diagonal, triangular / inverse triangular, triangular-factored "
+    "(positive) definite, dense (positive) definite with checked factor, dense square / inverse-LU with checked inverse, "
+    "dense symmetric with checked eigen-data, orthogonal, scaled orthogonal, eigendecomposed, rectangular, block "
+    "diagonal/row/column, the three product classes, the three low-rank update classes with sign and capacitance "
+    "object); unbounded depth, all sizes, any field. For every well-formed expression (constructor preconditions + "
+    "defining equations of all checked factors, decided exactly by the driver): leftMul_agrees, rightMul_agrees, "
+    "leftMul_vec_agrees, matmul_agrees, matmul_invertible, matmul_rect_plain (product-class selection), "
+    "transpose_agrees, transpose_wf, inv_agrees (two-sided), inv_agrees_nonsing (= Mathlib inverse), inv_wf, "
+    "inv_inv_agrees, inv_transpose_comm, smul_agrees, smul_wf, neg_agrees (non-zero scalar multiples sg*r^2), "
+    "diagonal_agrees, sdet_agrees / sdet_abs_agrees (the determinant composed the way log_abs_det is composed equals "
+    "|det| of the dense array); low-rank updates WITH SIGN in checked-inverse form: lowrank_woodbury_signed with "
+    "capacitance C = K^-1 + sign V S^-1 U, lowrank_det_signed, lowrank_unsigned_capacitance_wrong (the pre-fix formula "
+    "is refuted on a concrete downdate), ambikasaran_identity, lowrank_sqrt_signed; square roots sqrt_scaledId, "
+    "sqrt_diag, sqrt_triFact, sqrt_denseDef, sqrt_eigSym, sqrt_blockDiag; eigen-data eig_diag, eig_denseSym, "
+    "eig_blockDiag; evaluator_agrees (the value-level evaluator run by the driver equals the model functions). "
+    "Tied to the code by random expression trees (depth <= 4 quick / 7 thorough, sizes 1..5 incl. block sums, both "
+    "signs, upper/lower, factors given or absent, precomputed LU/eigen/capacitance data) compared with the model's exact "
+    "rational denote/diagonal/sdet/leftMul/rightMul/class name and with dense NumPy for every observable."
 )
 LEVEL_NOTE = (
     "Trusted: Lean kernel, axioms {propext, Classical.choice, Quot.sound}; LAPACK solves/factorisations are modelled as "
     "multiplication by checked exact inverses / given factors (Cholesky, eigh, LU, sqrtm are data with their defining "
-    "equations as hypotheses); log_abs_det is modelled by the determinant it is the log-abs of (sum of logs = product); "
-    "float rounding is outside the theorems and bounded by conditioning (cond < 2e3 per node) with rtol 1e-8; classes with "
-    "irrational data (SoftAbs, DensePositiveDefiniteProductMatrix, float orthogonal factors, non-square scalars) are "
-    "compared with dense NumPy only; n-ary products/blocks are modelled by nested binary nodes."
+    "equations as hypotheses; the driver obtains inverses by Gauss-Jordan over Q and decides WF before answering); "
+    "log_abs_det is modelled by the determinant it is the log-abs of (sum of logs = product; sign lost: theorem is "
+    "sdet^2 = det^2, |sdet| = |det| over ordered fields); scalar multiples are sg*r^2 in the model (factored classes need "
+    "sqrt|c|); n-ary products/blocks are nested binary nodes; float rounding is outside the theorems and bounded by "
+    "conditioning (cond < 2e3 per generated node, 1e5 at the root) with rtol 1e-8. Classes with irrational data "
+    "(SoftAbs, DensePositiveDefiniteProductMatrix, float orthogonal factors, arbitrary scalars, inverse-triangular dense "
+    "factors, explicit n-ary product constructors) and implicit sizes are compared with dense NumPy only. Square-shaped "
+    "objects of non-square classes have no log_abs_det (adjudicated misuse: counted). Known finding re-detected every "
+    "run: PositiveDefiniteLowRankUpdateMatrix.sqrt with a column-rank-deficient factor."
 )
 TECHNIQUE = (
-    "Lean 4 theorems by structural induction over matrix expressions (Mathlib matrices over a field) + random "
-    "expression-tree correspondence against the exact rational model and dense NumPy"
+    "Lean 4 theorems by structural induction over matrix expressions (Mathlib matrices over a field, checked-inverse "
+    "data) + random expression-tree correspondence against the exact rational model and dense NumPy"
 )
